@@ -313,6 +313,333 @@ theorem decFields_na : ∀ (kvs : List (List Name × Val)) (p : Path) (s : St) (
 end
 
 
+
+structure RelNA (σs : SSt) (s : St) : Prop where
+  cur : s.cur = σs.cur
+  curKey : s.curKey = σs.cur
+  arrays : s.arrays = []
+  out : ([], Leaf.tbl) :: s.out = σs.facts
+  noAot : NoAot σs.store
+  seen : SeenInv σs.store s.seen
+
+theorem relNA_init : RelNA SSt.init St.init :=
+  ⟨rfl, rfl, rfl, rfl, by intro r n; simp [SSt.init, kindAt], by intro k hk; simp [St.init] at hk⟩
+
+theorem step_na (σs σs' : SSt) (s : St) (e : Ev) (hr : RelNA σs s)
+    (hna : ∀ ks, e ≠ .arrayTable ks) (hs : sstep σs e = .ok σs') :
+    ∃ s', step s e = .ok s' ∧ RelNA σs' s' := by
+  cases e with
+  | arrayTable ks => exact absurd rfl (hna ks)
+  | kv ks v =>
+    rw [sstep] at hs
+    split at hs
+    · cases hs
+    · next σ hd =>
+      cases hs
+      obtain ⟨s', h1, g1, g2, g3⟩ := decFields_na _ _ s _ _ hd hr.arrays hr.seen
+      have hf := decodeFields_frame _ _ _ _ _ h1
+      refine ⟨s', ?_, ?_⟩
+      · rw [step, hr.curKey, hr.cur]; exact h1
+      · obtain ⟨o, a, c, ck⟩ := hf
+        refine ⟨by rw [c]; exact hr.cur, by rw [ck]; exact hr.curKey, by rw [a]; exact hr.arrays,
+          ?_, g3 hr.noAot, g1⟩
+        simp only [o, factsFields, List.append_nil]
+        rw [← List.cons_append, hr.out]
+  | table ks =>
+    rw [sstep] at hs
+    split at hs
+    · cases hs
+    · cases hs
+    · next k σ1 q hl hw =>
+      obtain ⟨hq, st1, na1⟩ := walkHeader_spec_na _ _ _ _ _ hw hr.noAot
+      have hp : q ++ [Seg.key k] = keyPath ks := by
+        rw [hq, ← dropLast_getLast? _ _ hl]; simp [keyPath]
+      simp only [hp] at hs
+      have hnotseen : keyPath ks ∉ s.seen → ∃ s', step s (.table ks) = .ok s' ∧
+          s' = { s with seen := keyPath ks :: s.seen, out := s.out ++ [(keyPath ks, .tbl)],
+                        cur := keyPath ks, curKey := keyPath ks } := by
+        intro hn
+        refine ⟨_, ?_, rfl⟩
+        rw [step]
+        simp only []
+        rw [if_neg (by simpa using hn)]
+        simp [findArrayPrefix, findArray, hr.arrays, maxPrefixLoop]
+      have fin : ¬ HV σ1 (keyPath ks) → σs' = SSt.mk (define σ1 (keyPath ks) Kind.header) (keyPath ks)
+            (σs.facts ++ [(keyPath ks, Leaf.tbl)]) →
+          ∃ s', step s (.table ks) = .ok s' ∧ RelNA σs' s' := by
+        intro hnhv he
+        have hn : keyPath ks ∉ s.seen := fun hm => hnhv (st1 _ (hr.seen _ hm))
+        obtain ⟨s', h1, e1⟩ := hnotseen hn
+        refine ⟨s', h1, ?_⟩
+        subst e1 he
+        refine ⟨rfl, rfl, hr.arrays, ?_, noAot_define _ _ _ (by intro n; simp) na1, ?_⟩
+        · simp only []; rw [← List.cons_append, hr.out]
+        · intro k' hk'
+          rcases List.mem_cons.1 hk' with e | e
+          · subst e; exact hv_define _ _ _ (.inl rfl)
+          · exact stable_define_hv _ _ _ (.inl rfl) _ (st1 _ (hr.seen _ e))
+      split at hs
+      · next hk => exact fin (by simp [HV, hk]) (by cases hs; rfl)
+      · next hk => exact fin (by simp [HV, hk]) (by cases hs; rfl)
+      · cases hs
+      · cases hs
+
+theorem run_na : ∀ (evs : List Ev) (σs σs' : SSt) (s : St), RelNA σs s →
+    (∀ e ∈ evs, ∀ ks, e ≠ .arrayTable ks) → srun σs evs = .ok σs' →
+    ∃ s', run s evs = .ok s' ∧ RelNA σs' s'
+  | [], σs, σs', s, hr, _, h => by
+    rw [srun] at h; cases h
+    exact ⟨s, rfl, hr⟩
+  | e :: es, σs, σs', s, hr, hna, h => by
+    rw [srun] at h
+    split at h
+    · cases h
+    · next σ1 h1 =>
+      obtain ⟨s1, g1, r1⟩ := step_na _ _ _ _ hr (hna e (List.mem_cons_self ..)) h1
+      obtain ⟨s2, g2, r2⟩ := run_na es _ _ _ r1 (fun e' he' => hna e' (List.mem_cons_of_mem _ he')) h
+      refine ⟨s2, ?_, r2⟩
+      rw [run, g1]; exact g2
+
+theorem sameData_refl (a : List Fact) : SameData a a := fun _ => Iff.rfl
+
+/-- `sem_partial` for documents without array-of-tables headers -/
+theorem sem_partial_noarrays (evs : List Ev) (fs : List Fact)
+    (hna : ∀ e ∈ evs, ∀ ks, e ≠ .arrayTable ks) (h : tomlSpec evs = .ok fs) :
+    ∃ fs', decode evs = .ok fs' ∧ SameData fs fs' := by
+  unfold tomlSpec at h
+  split at h
+  · cases h
+  · next σs hs =>
+    cases h
+    obtain ⟨s', g, r⟩ := run_na evs _ _ _ relNA_init hna hs
+    refine ⟨([], .tbl) :: s'.out, ?_, ?_⟩
+    · unfold decode; rw [g]
+    · rw [r.out]; exact sameData_refl _
+
+
+
+/-! ### list-level facts about `findArray`, `maxPrefixLoop` and the slot of `findArrayPrefix`
+(independent of the specification; ingredients of the general simulation) -/
+
+theorem findArray_none {arrays : List OpenArr} {k : Path} (h : findArray arrays k = none) :
+    ∀ a ∈ arrays, a.rkey ≠ k := by
+  intro a ha e
+  unfold findArray at h
+  rw [List.findIdx?_eq_none_iff] at h
+  have := h a ha
+  simp [e] at this
+
+theorem findArray_some {arrays : List OpenArr} {k : Path} {i : Nat}
+    (h : findArray arrays k = some i) :
+    ∃ a, arrays[i]? = some a ∧ a.rkey = k ∧
+      ∀ j, j < i → ∀ b, arrays[j]? = some b → b.rkey ≠ k := by
+  unfold findArray at h
+  rw [List.findIdx?_eq_some_iff_getElem] at h
+  obtain ⟨hi, hp, hlt⟩ := h
+  refine ⟨arrays[i], by simp [hi], by simpa using hp, ?_⟩
+  intro j hj b hb e
+  have hjl : j < arrays.length := Nat.lt_trans hj hi
+  have := hlt j hj
+  rw [List.getElem?_eq_getElem hjl] at hb
+  cases hb
+  simp [e] at this
+
+/-- the slot returned by `findArrayPrefix` survives the compaction when nothing at or before
+it is deleted -/
+theorem filter_slot {α} (f : α → Bool) : ∀ (l : List α) (i : Nat),
+    (∀ j, j ≤ i → ∀ b, l[j]? = some b → f b = true) → (l.filter f)[i]? = l[i]?
+  | [], i, _ => by simp
+  | a :: l, 0, h => by
+    have := h 0 (Nat.le_refl _) a (by simp)
+    simp [this]
+  | a :: l, i + 1, h => by
+    have h0 := h 0 (Nat.zero_le _) a (by simp)
+    simp only [List.filter_cons, h0, if_true, List.getElem?_cons_succ]
+    exact filter_slot f l i (fun j hj b hb => h (j + 1) (Nat.succ_le_succ hj) b (by simpa using hb))
+
+/-- state of the second loop of `findArrayPrefix` after scanning `pre` -/
+def BestOk (key : Path) (pre : List OpenArr) (m : Nat) : Option Nat → Prop
+  | none => m = 0 ∧ ∀ b ∈ pre, strictPrefix b.rkey key = true → b.level = 0
+  | some j => ∃ a, pre[j]? = some a ∧ strictPrefix a.rkey key = true ∧ a.level = m ∧
+      ∀ b ∈ pre, strictPrefix b.rkey key = true → b.level ≤ m
+
+theorem maxPrefixLoop_spec (key : Path) : ∀ (l pre : List OpenArr) (m : Nat) (best : Option Nat),
+    BestOk key pre m best →
+    ∃ m', BestOk key (pre ++ l) m' (maxPrefixLoop key l pre.length m best)
+  | [], pre, m, best, h => by
+    rw [maxPrefixLoop]; exact ⟨m, by simpa using h⟩
+  | a :: l, pre, m, best, h => by
+    rw [maxPrefixLoop]
+    have hlen : pre.length + 1 = (pre ++ [a]).length := by simp
+    have happ : pre ++ a :: l = (pre ++ [a]) ++ l := by simp
+    rw [happ, hlen]
+    split
+    · next hc =>
+      simp only [Bool.and_eq_true, decide_eq_true_eq] at hc
+      apply maxPrefixLoop_spec key l (pre ++ [a]) a.level (some pre.length)
+      refine ⟨a, by simp, hc.1, rfl, ?_⟩
+      intro b hb hsp
+      rcases List.mem_append.1 hb with hb | hb
+      · cases best with
+        | none => have := h.2 b hb hsp; omega
+        | some j =>
+          obtain ⟨a0, _, _, e0, hall⟩ := h
+          have := hall b hb hsp; omega
+      · simp at hb; subst hb; exact Nat.le_refl _
+    · next hc =>
+      simp only [Bool.and_eq_true, decide_eq_true_eq, not_and, Nat.not_lt] at hc
+      apply maxPrefixLoop_spec key l (pre ++ [a]) m best
+      cases best with
+      | none =>
+        refine ⟨h.1, ?_⟩
+        intro b hb hsp
+        rcases List.mem_append.1 hb with hb | hb
+        · exact h.2 b hb hsp
+        · simp at hb; subst hb
+          have := hc hsp; have := h.1; omega
+      | some j =>
+        obtain ⟨a0, g0, s0, e0, hall⟩ := h
+        refine ⟨a0, ?_, s0, e0, ?_⟩
+        · have hj : j < pre.length := by
+            rcases Nat.lt_or_ge j pre.length with hn | hn
+            · exact hn
+            · rw [List.getElem?_eq_none hn] at g0; cases g0
+          rw [List.getElem?_append_left hj]; exact g0
+        · intro b hb hsp
+          rcases List.mem_append.1 hb with hb | hb
+          · exact hall b hb hsp
+          · simp at hb; subst hb; exact hc hsp
+
+theorem maxPrefixLoop_none {key : Path} {l : List OpenArr}
+    (h : maxPrefixLoop key l 0 0 none = none) :
+    ∀ b ∈ l, strictPrefix b.rkey key = true → b.level = 0 := by
+  obtain ⟨m', hb⟩ := maxPrefixLoop_spec key l [] 0 none ⟨rfl, by simp⟩
+  simp only [List.length_nil, List.nil_append] at hb
+  rw [h] at hb
+  exact hb.2
+
+theorem maxPrefixLoop_some {key : Path} {l : List OpenArr} {i : Nat}
+    (h : maxPrefixLoop key l 0 0 none = some i) :
+    ∃ a, l[i]? = some a ∧ strictPrefix a.rkey key = true ∧
+      ∀ b ∈ l, strictPrefix b.rkey key = true → b.level ≤ a.level := by
+  obtain ⟨m', hb⟩ := maxPrefixLoop_spec key l [] 0 none ⟨rfl, by simp⟩
+  simp only [List.length_nil, List.nil_append] at hb
+  rw [h] at hb
+  obtain ⟨a, g, sp, e, hall⟩ := hb
+  exact ⟨a, g, sp, by rw [e]; exact hall⟩
+
+
+
+/-! ### header resolution without store updates (ingredient of the general simulation) -/
+
+/-- entering an array of tables at its last element -/
+def enter (σ : Store) (p : Path) : Path :=
+  match kindAt σ p with
+  | some (.aot n) => p ++ [.idx (n - 1)]
+  | _ => p
+
+/-- the path a rooted key of the decoder designates in the store: labels enter arrays of
+tables at their last element, explicit indices are literal -/
+def res (σ : Store) : Path → Path → Path
+  | p, [] => p
+  | p, .key a :: k => res σ (enter σ p ++ [.key a]) k
+  | p, .idx i :: k => res σ (p ++ [.idx i]) k
+
+/-- the two stores have the same arrays of tables -/
+def SameAot (σ σ' : Store) : Prop := ∀ r n, kindAt σ r = some (.aot n) ↔ kindAt σ' r = some (.aot n)
+
+theorem SameAot.refl (σ : Store) : SameAot σ σ := fun _ _ => Iff.rfl
+theorem SameAot.trans {a b c : Store} (h1 : SameAot a b) (h2 : SameAot b c) : SameAot a c :=
+  fun r n => (h1 r n).trans (h2 r n)
+
+theorem sameAot_define (σ : Store) (p : Path) (k : Kind) (hk : ∀ n, k ≠ .aot n)
+    (hp : ∀ n, kindAt σ p ≠ some (.aot n)) : SameAot σ (define σ p k) := by
+  intro r n
+  rw [kindAt_define]
+  by_cases e : p = r
+  · subst e; simp [hp n, hk n]
+  · simp [e]
+
+theorem enter_congr {σ σ' : Store} (h : SameAot σ σ') (p : Path) : enter σ p = enter σ' p := by
+  unfold enter
+  cases h1 : kindAt σ p with
+  | none =>
+    cases h2 : kindAt σ' p with
+    | none => rfl
+    | some k2 =>
+      cases k2 with
+      | aot n => have := (h p n).2 h2; rw [h1] at this; cases this
+      | _ => rfl
+  | some k1 =>
+    cases k1 with
+    | aot n => have := (h p n).1 h1; rw [this]
+    | _ =>
+      cases h2 : kindAt σ' p with
+      | none => rfl
+      | some k2 =>
+        cases k2 with
+        | aot n => have := (h p n).2 h2; rw [h1] at this; cases this
+        | _ => rfl
+
+theorem res_congr {σ σ' : Store} (h : SameAot σ σ') : ∀ (k p : Path), res σ p k = res σ' p k
+  | [], p => rfl
+  | .key a :: k, p => by rw [res, res, enter_congr h, res_congr h k]
+  | .idx i :: k, p => by rw [res, res, res_congr h k]
+
+theorem res_append (σ : Store) : ∀ (k1 k2 p : Path), res σ p (k1 ++ k2) = res σ (res σ p k1) k2
+  | [], k2, p => rfl
+  | .key a :: k1, k2, p => by rw [List.cons_append, res, res, res_append σ k1 k2]
+  | .idx i :: k1, k2, p => by rw [List.cons_append, res, res, res_append σ k1 k2]
+
+theorem enter_aot {σ : Store} {p : Path} {n : Nat} (h : kindAt σ p = some (.aot n)) :
+    enter σ p = p ++ [.idx (n - 1)] := by
+  unfold enter; rw [h]
+
+theorem enter_not {σ : Store} {p : Path} (h : ∀ n, kindAt σ p ≠ some (.aot n)) :
+    enter σ p = p := by
+  unfold enter
+  split
+  · next n hn => exact absurd hn (h n)
+  · rfl
+
+/-- `walkHeader` resolves the leading parts of a header like `res`, and only adds implicit
+tables at undefined paths -/
+theorem walkHeader_res : ∀ (ks : List Name) (σ : Store) (p : Path) (σ1 : Store) (q : Path),
+    walkHeader σ (enter σ p) ks = .ok (σ1, q) →
+    q = enter σ (res σ p (keyPath ks)) ∧ SameAot σ σ1 ∧ Stable σ σ1
+  | [], σ, p, σ1, q, h => by
+    rw [walkHeader] at h
+    cases h
+    exact ⟨rfl, SameAot.refl _, Stable.refl _⟩
+  | k :: ks, σ, p, σ1, q, h => by
+    rw [walkHeader] at h
+    simp only [keyPath, List.map_cons, res]
+    split at h
+    · next hk =>
+      have sa : SameAot σ (define σ (enter σ p ++ [Seg.key k]) .implicit) :=
+        sameAot_define _ _ _ (by intro n; simp) (by intro n; simp [hk])
+      have he : enter (define σ (enter σ p ++ [Seg.key k]) .implicit) (enter σ p ++ [Seg.key k])
+          = enter σ p ++ [Seg.key k] := by
+        rw [← enter_congr sa]; exact enter_not (by intro n; simp [hk])
+      have h' : walkHeader (define σ (enter σ p ++ [Seg.key k]) .implicit)
+          (enter (define σ (enter σ p ++ [Seg.key k]) .implicit) (enter σ p ++ [Seg.key k])) ks
+          = .ok (σ1, q) := by rw [he]; exact h
+      obtain ⟨a, b, c⟩ := walkHeader_res ks _ _ _ _ h'
+      refine ⟨?_, sa.trans b, Stable.trans (stable_define_fresh _ _ _ (by simp [HV, hk])) c⟩
+      rw [a, ← enter_congr sa, ← res_congr sa]; rfl
+    · cases h
+    · next n hk =>
+      have he : enter σ (enter σ p ++ [Seg.key k]) = enter σ p ++ [Seg.key k] ++ [Seg.idx (n - 1)] :=
+        enter_aot hk
+      rw [← he] at h
+      exact walkHeader_res ks _ _ _ _ h
+    · next kd hk1 hk2 hk3 =>
+      have he : enter σ (enter σ p ++ [Seg.key k]) = enter σ p ++ [Seg.key k] :=
+        enter_not (by intro n hn; rw [hk3] at hn; cases hn; exact hk2 n rfl)
+      rw [← he] at h
+      exact walkHeader_res ks _ _ _ _ h
+
+
 --NEXT
 
 end CueVerif.Toml
